@@ -298,6 +298,7 @@ type h1spec struct {
 	Bodiless   bool   `json:"bodiless,omitempty"`
 	HdrTimeout bool   `json:"hdr_timeout,omitempty"` // ResponseHeaderTimeout configured (1 h unless it is the injection)
 	Auto       bool   `json:"auto,omitempty"`        // auto-read mode: the call returns after the body
+	Expect     bool   `json:"expect,omitempty"`      // upload with Expect: 100-continue, ExpectContinueTimeout 1 h: the body waits for the peer's 100
 	Queued     bool   `json:"queued,omitempty"`      // MaxConnsPerHost = 1 and the only connection is busy: the request waits in getConn's queue
 }
 
@@ -483,7 +484,20 @@ func h1steps(sp h1spec) []step {
 		fresh()
 	}
 	if sp.Upload {
-		st = append(st, step{"peer read 64 KiB of the request body", []string{"XWroteSome"}, func(r *h1run) error { return r.pc.readBody(64 << 10) }})
+		st = append(st, step{"peer read 64 KiB of the request body", []string{"XWroteSome"}, func(r *h1run) error {
+			if r.spec.Expect {
+				// nothing of the body may arrive before the interim response
+				r.pc.c.SetReadDeadline(time.Now().Add(40 * time.Millisecond))
+				if b, err := r.pc.br.Peek(1); err == nil {
+					return fmt.Errorf("body byte %q arrived before 100 Continue", b)
+				}
+				r.pc.c.SetReadDeadline(time.Time{})
+				if err := r.pc.write([]byte("HTTP/1.1 100 Continue\r\n\r\n")); err != nil {
+					return err
+				}
+			}
+			return r.pc.readBody(64 << 10)
+		}})
 		st = append(st, step{"peer read the whole request body", []string{"XWrote"}, func(r *h1run) error { return r.pc.readBody(-1) }})
 	}
 	st = append(st, step{"part of the response head sent", nil, func(r *h1run) error {
@@ -689,6 +703,10 @@ func runH1(sp h1spec, kind string, pos int, racy bool, quick bool) (o obs) {
 	rq := c.R().SetContext(ctx)
 	if !sp.Auto {
 		rq.DisableAutoReadResponse()
+	}
+	if sp.Expect {
+		c.GetTransport().SetExpectContinueTimeout(time.Hour)
+		rq.SetHeader("Expect", "100-continue")
 	}
 	method := "GET"
 	if sp.Upload {
